@@ -39,7 +39,7 @@ CLAIMED = {
    "Trusted: reference key evaluation (C08 interpreter); recording members. The random law has a false-alarm probability below 1e-20 per case.",
    "proptest stateful sequences + multi-thread stress, oracle = counting / grouping invariants", "§3 C17"),
  "C01": ("both", "exploration",
-   "Part (a) of the design, the buffered relay path under an owned schedule: 1 500 (quick) / 40 000 (thorough) generated cases of 1-3 concurrent tunnels through the real create_context, h11c_handshake, process_request, rules, h11c_connect and copy_bidi on one current-thread runtime, with payloads up to 1 MiB, early data on both sides, per-poll I/O schedules down to one byte, pipe capacities from 1 byte (back-pressure) and bufferSize from 1 to 65536; bytes at each far end must equal the bytes sent. (b) end-to-end on real sockets: two real proxies (useSplice true / false) in front of a third; every listener {http, socks5, socks4, reverse} x upstream {direct, http->B, socks5->B, socks4->B, load-balanced} pairing once per I/O mode, directed 8-16 MiB back-pressure cases and 40 (quick) / 1 200 (thorough) generated schedules (early data, chunking, stalled readers, half-close / RST), each run against both I/O modes. TLS and QUIC hops are exercised by the C07 and C10 fixtures, not by this grid.",
+   "Part (a) of the design, the buffered relay path under an owned schedule: 1 500 (quick) / 40 000 (thorough) generated cases of 1-3 concurrent tunnels through the real create_context, h11c_handshake, process_request, rules, h11c_connect and copy_bidi on one current-thread runtime, with payloads up to 1 MiB, early data on both sides, per-poll I/O schedules down to one byte, pipe capacities from 1 byte (back-pressure) and bufferSize from 1 to 65536; bytes at each far end must equal the bytes sent. (b) end-to-end on real sockets: two real proxies (useSplice true / false) in front of a third; every listener {http, socks5, socks4, reverse} x upstream {direct, http->B, socks5->B, socks4->B, load-balanced, https->B over TLS, quic->B over a QUIC stream} pairing once per I/O mode, directed 8-16 MiB back-pressure cases and 40 (quick) / 1 200 (thorough) generated schedules (early data, chunking, stalled readers, half-close / RST), each run against both I/O modes. TLS and QUIC are exercised as upstream hops; TLS / QUIC *listeners* carry payload only in the C07 / C05 / C10 fixtures, not in this grid.",
    "Trusted: tokio's in-memory duplex and the Scripted wrapper as carriers; the harness peers are full-duplex; a virtual clock turns a wedge into a verdict, a non-blocking spin is caught by a 120 s wall-clock watchdog and reported as inconclusive (exit 2).",
    "proptest over generated I/O schedules (in-process) + enumerated pairing grid and generated schedules on real sockets, oracle = byte-for-byte equality with keyed PRNG payloads", "§3 C01"),
  "C04": ("both", "exploration",
